@@ -126,6 +126,15 @@ class Handler(object):
         self.events.append('cCLOSE')
 
 
+class CustomHandler(Handler):
+    """A handler object that also implements a command of its own (XPING): Server._command_custom hands it a reply
+    (a copy of the stock 500) which it changes as any other callback does."""
+
+    def XPING(self, reply, arg, server):
+        self.events.append('cCUSTOM:%s:%s' % (hx(b'XPING'), '-' if arg is None else hx(arg)))
+        self._verdict(reply)
+
+
 def run_server(cfg, verdicts, buf0, segs, tls_streams=(), eof=False):
     """cfg: dict(starttls, auth, maxsize, immediate). Returns dict(events, ending, state, commands, dropped)."""
     from slimta.smtp.server import Server
@@ -135,7 +144,7 @@ def run_server(cfg, verdicts, buf0, segs, tls_streams=(), eof=False):
     outer = {}
     sock = ScriptSocket(segs, eof=eof)
     ctx = FakeContext(tls_streams, outer) if (cfg['starttls'] or cfg.get('immediate')) else None
-    h = Handler(verdicts, events)
+    h = CustomHandler(verdicts, events) if cfg.get('custom') else Handler(verdicts, events)
     srv = Server(sock, h, address=('127.0.0.1', 1234), auth=bool(cfg['auth']), context=ctx,
                  tls_immediately=bool(cfg.get('immediate')))
     if cfg.get('maxsize'):
@@ -207,8 +216,11 @@ def b64_table(lines):
 
 def model_request(cfg, verdicts, buf0, pieces, tls_streams, candidate_lines):
     b64t, plaint = b64_table(candidate_lines)
-    return 'server run %d %d %s %d %s %s %s %s %s %s' % (
-        1 if cfg['starttls'] else 0, 1 if cfg['auth'] else 0, cfg.get('maxsize') or '-', 1 if cfg.get('immediate') else 0,
+    imm = '1' if cfg.get('immediate') else '0'
+    if cfg.get('custom'):
+        imm += ':' + ','.join(hx(c) for c in cfg['custom'])
+    return 'server run %d %d %s %s %s %s %s %s %s %s' % (
+        1 if cfg['starttls'] else 0, 1 if cfg['auth'] else 0, cfg.get('maxsize') or '-', imm,
         ','.join('-' if v is None else str(v) for v in verdicts) or '-', b64t, plaint, hx(buf0), hxl(pieces),
         '/'.join(hxl(t) for t in tls_streams) or 'none')
 
